@@ -594,10 +594,6 @@ fn diff_parts(op: &str, want: &[u8], got: &[u8]) -> Vec<String> {
     parts
 }
 
-fn common_prefix(a: &[u8], b: &[u8]) -> usize {
-    a.iter().zip(b.iter()).take_while(|(x, y)| x == y).count()
-}
-
 struct Exp {
     haswire: bool,
     op: String,
@@ -631,8 +627,14 @@ fn call_parts(e: &Exp, o: &Obs) -> Vec<String> {
     } else if !e.haswire && !o.wire.is_empty() {
         parts.push("sent-although-rejected".to_string());
     } else if e.haswire && !e.encs.iter().any(|x| *x == o.wire) {
-        let best = e.encs.iter().max_by_key(|x| common_prefix(x, &o.wire)).unwrap();
-        let p = diff_parts(&e.op, best, &o.wire);
+        // name the difference against the acceptable encoding (order of SET OF values) that is closest
+        let p = e
+            .encs
+            .iter()
+            .take(64)
+            .map(|x| diff_parts(&e.op, x, &o.wire))
+            .min_by_key(|p| (p.len(), p.iter().any(|s| s == "shape")))
+            .unwrap_or_default();
         if p.is_empty() {
             parts.push("encoding".to_string());
         }
